@@ -43,7 +43,8 @@ fn accepted<F: Family>(b: &[u8], p: &F::Packet, consumed: usize, front: &str, ct
             // K1: the lenient decoders ignore an under-declared remaining length; the canonical
             // header needs more length bytes than the peer sent
             ctx.label("known:K1-lenient-underdeclared-remaining-length");
-            ctx.known_finding(
+            ctx.known_finding_as(
+                "C11",
                 "lenient-underdeclared-remaining-length",
                 &format!("{} decoder consumed {} bytes of {} but the re-encoding of {} has {} bytes", front, consumed, hex_short(b, 96), fam::render(p), enc.len()),
             )?;
